@@ -8,6 +8,10 @@ CLAIMED = {
              note="Trusted: the engine's exact-arithmetic numpy facade and stubs listed in evidence (fftconvolve = exact convolution, xxh3 collision-free); real not float arithmetic; sizes beyond the bound are outside the claim."),
  "C03": dict(ref="§3 C03", text="Bounded solver-decided identity: for every forest on <= 3 (quick) / 4 (thorough) data points incl. every outlier subset, built through up to 10 edit histories, z3 proves log_p, log_p_one, the fused variant and TreeHolder copies equal the FS-CRP oracle written from the statement, for all positive data, alpha, outlier probabilities; ==/hash facts are exhaustive ground checks over all forest pairs.",
              note="Trusted: oracle in vsym/spec/fscrp.py (independent of the code), C02's brute-force marginal for the data term, engine stubs; real arithmetic; n > 4 outside."),
+ "C08": dict(ref="§3 C08", text="Bounded solver-decided identities per (proposal kind, parent state, next data point): support == independent enumeration of placements; sum of reported probabilities == 1; probability of drawing each tree (all RNG outcomes enumerated with exact probabilities) == its reported probability; incremental weight x proposal probability == target ratio (oracle joint x 1/#compatible orders); last-step correction to the fixed-root target - for all positive data, alpha, outlier priors and outlier proposal probability in (0,1). Parents: None and every forest on <= 2 (quick) / 3 (thorough) placed points incl. outlier-only parents.",
+             note="Trusted: C03 oracle and brute-force order count as targets; engine stubs; `if not log_p` zero-sentinel paths cut by assumption (explored in C03); real arithmetic; grid 2, one sample."),
+ "C01": dict(ref="§3 C01", text="Bounded solver-decided invariance: the real particle-Gibbs update is run from every tree of the independently enumerated state space under an enumerating RNG, giving exact symbolic transition rows; z3 proves row sums == 1 and sum_t gamma(t)K(t,t') == gamma(t') on every cell of the data-dependent (ESS) decisions. n <= 2 data points, N = 2 particles, grid 2, thresholds {0, 3/4, 1}, three proposals x {library, run-command wiring} x outliers {off: fully symbolic data and alpha; on: three coordinate slices with the remaining unknowns at stated rationals}; thorough adds n = 3 slices, N = 3, grid 3.",
+             note="Trusted: gamma from the real log_p_one (C03's subject); engine stubs; zero-sentinel paths cut by assumption; with outliers on the identity is decided on coordinate slices (fully symbolic form is beyond z3: unknown after 300 s); validity of particle Gibbs as an algorithm is not re-proved, the code's exact transition law is checked within the bounds."),
 }
 NA = {
  "C17": "all logic is inside pandas (read_table, groupby/transform, sort_values, .at): symbolic tables cannot cross into it and an SMT model of those calls would verify the model, not the code; the one pure-Python rule (major < minor raises) is covered under C05",
